@@ -269,7 +269,7 @@ func main() {
 	sup.Main(sup.Prop{
 		ID:    "C02",
 		Level: "exploration",
-		Rule: "one generated history is executed step by step on memfs, on diskfs (fresh temp dir) and on the tree model (which decides whether the stated preconditions hold); inside the preconditions: disk result = memory result and disk tree = memory tree after every step; outside: no panic and no change off the addressed paths on both backends; host sentinels next to/above the root are hashed after every step. Configurations root/root, child/child, mixed. distinct = distinct operation sequences; non-trivial = ≥1 successful mutation inside the preconditions",
+		Rule:  "one generated history is executed step by step on memfs, on diskfs (fresh temp dir) and on the tree model (which decides whether the stated preconditions hold); inside the preconditions: disk result = memory result and disk tree = memory tree after every step; outside: no panic and no change off the addressed paths on both backends; host sentinels next to/above the root are hashed after every step. Configurations root/root, child/child, mixed. distinct = distinct operation sequences; non-trivial = ≥1 successful mutation inside the preconditions",
 		Assumptions: []string{
 			"preconditions as in the statement plus 'source has the kind the operation names'; removing the root, symlinks, permission bits and copying a directory into itself are not generated",
 			"child views are requested only on existing directories; obtaining a view is not a compared operation",
